@@ -107,7 +107,8 @@ def cases(ctx):
         yield {'kind': 'emb', 'batch': b}
 
 
-RESTR = ['none', 'none-empty-list', 'partial', 'all-fixed', 'dup-fixed', 'dup-mobile', 'single', 'all-fixed-dup']
+RESTR = ['none', 'none-empty-list', 'partial', 'all-fixed', 'dup-fixed', 'dup-mobile', 'single', 'all-fixed-dup', 'mobile-in-order',
+         'mobile-in-order-all-fixed']
 PLACE = ['overlap', 'far', 'cluster', 'lattice-jitter', 'far-from-origin', 'far-from-origin-aligned']
 
 
@@ -141,6 +142,15 @@ def gen_restraints(rng, cls, nf, nm):
         j = int(rng.integers(0, nm))
         for i in rng.choice(nf, size=min(nf, int(rng.integers(2, 4))), replace=False):
             pairs.add((int(i), j))
+    if cls.startswith('mobile-in-order'):
+        # the mobile column of the list is a consecutive ascending run (0, 1, ..., or a stretch of it), listed in that order
+        lo = 0 if rng.random() < 0.6 else int(rng.integers(0, max(1, nm - 1)))
+        hi = nm if rng.random() < 0.7 else int(rng.integers(lo + 1, nm + 1))
+        if cls.endswith('all-fixed') and hi - lo >= nf:
+            fixed = [int(x) for x in rng.permutation(nf)] + [int(rng.integers(0, nf)) for _ in range(hi - lo - nf)]
+        else:
+            fixed = [int(rng.integers(0, nf)) for _ in range(hi - lo)]
+        return [(fixed[k], lo + k) for k in range(hi - lo)]
     pairs = list(pairs)
     order = rng.permutation(len(pairs))
     return [pairs[k] for k in order]
